@@ -161,9 +161,9 @@ def sob_save(old: str, new: str, junk: str, exists: bool, has_junk: bool, varian
 
 HARNESSES = [
     H(setcontent, shards=[("exists == True",), ("exists == False",)],
-      labels=("end", "crashed", "torn"), timeout={"quick": 60, "thorough": 600}),
+      labels=("end", "crashed", "torn"), timeout={"quick": 150, "thorough": 600}),
     H(sob_save, shards=lambda tier: [("variant == %d" % v, "exists == %r" % e) for v in range(3) for e in (True, False)],
-      labels=("end", "crashed"), timeout={"quick": 60, "thorough": 600}),
+      labels=("end", "crashed"), timeout={"quick": 150, "thorough": 600}),
 ]
 
 VECTORS = {
